@@ -101,6 +101,9 @@ func (H) Tune(prop string, plan any, cfg *simrt.Config) {
 	if cfg.MaxSteps == 0 {
 		cfg.MaxSteps = 60000
 	}
+	// C07: the queues and the schedule are linked lists guarded by two locks; unordered accesses corrupt them in a
+	// real execution (lost entries, endless loops) but not in the simulation: predicted from happens-before
+	cfg.Race = prop == "C07"
 	if prop == "C07" || prop == "C15" {
 		cfg.MaxAdvIdx = 2
 		if cfg.PAdvance > 0.02 {
